@@ -13,4 +13,18 @@ TEXTS = {
              "extraction + 40-line OCaml driver audited by in-kernel vm_compute; Rust harness.",
         technique="Coq proof by induction (binary-counter invariant = split tree = level-by-level tree) + per-run model/implementation correspondence",
     ),
+    "C17": dict(
+        text="Kernel-checked: the checksum engine step is GF(2)-linear (C17_linear); the residue of a corrupted word is the residue of the word xor the "
+             "syndrome of the error pattern (C17_syndrome); for each of bech32, bech32m (upstream constants) and blech32, blech32m (constants re-read from "
+             "src/blech32/mod.rs) the 31*1023 values Z^a(u) are pairwise distinct and non-zero (C17_table, vm_compute), hence a word of total length <= 1023 "
+             "at Hamming distance 1 or 2 from a codeword is not a codeword (C17_two_errors), and a word within distance 2 of a bech32 (blech32) codeword is "
+             "not a bech32m (blech32m) codeword and vice versa for lengths <= 140 (C17_switch). Lifted to address strings by C17_address. The HRP clause and "
+             "parsing under another network's parameters are partial (explicit residual disjunct).",
+        design_ref="DESIGN.md section 6, C17",
+        note="Trusted: Coq kernel incl. vm_compute; hand-written Gallina model of the bech32 0.11 engine/decoder and of src/blech32/decode.rs, src/address.rs; "
+             "upstream bech32/bech32m constants transcribed by hand; translator regexes; extraction + OCaml driver audited by in-kernel vm_compute; Rust harness. "
+             "The tie model<->code is differential testing on every run (sampled corruptions; complete position-pair enumerations in the thorough tier).",
+        technique="Coq proof: bit-level linearity + syndrome decomposition + kernel-evaluated distance table (merge sort, 31 713 entries per code) + per-run "
+                  "model/implementation correspondence with the property predicate evaluated on the implementation",
+    ),
 }
